@@ -4,7 +4,10 @@ import (
 	"encoding/json"
 	"fmt"
 	"os"
+	"runtime"
 	"sort"
+	"sync"
+	"sync/atomic"
 	"time"
 
 	codec "github.com/uhppoted/uhppote-core/encoding/UTO311-L0x"
@@ -444,6 +447,186 @@ func c13(c *Ctx) {
 				checkDay(y, m, dd, "whole-year")
 			}
 		}
+	}
+
+	// ---- a burst of events through the listener (in-memory driver): each delivered status must carry the date-times of its own
+	// datagram even when the next datagram is being decoded while the previous one is still being handed over
+	{
+		rounds := c.N(150, 1500)
+		bad := 0
+		for round := 0; round < rounds && bad < 3; round++ {
+			for len(evc) > 0 {
+				<-evc
+			}
+			const burst = 24
+			want := map[uint32]string{}
+			for k := 0; k < burst; k++ {
+				st := time.Unix(946684800+int64(r.Pick(69*365*86400)), 0)
+				cv := civilOf(st.Unix(), loc)
+				if cv.y < 2000 || cv.y > 2068 || !z.civilExists(cv.y, cv.m, cv.d, cv.h, cv.mi, cv.s) {
+					continue
+				}
+				seqid := uint32(round*burst + k + 1)
+				msg := okReply(statusOp, 405419896)
+				l := statusOp.ReplyLayout()
+				rm.EncodeField(msg, *l.Field("SequenceId"), rm.UVal(rm.U32, uint64(seqid)))
+				rm.EncodeField(msg, *l.Field("SystemDate"), rm.Val{K: rm.SysDate, Y: cv.y, Mo: cv.m, D: cv.d})
+				rm.EncodeField(msg, *l.Field("SystemTime"), rm.Val{K: rm.SysTime, H: cv.h, Mi: cv.mi, S: cv.s})
+				rm.EncodeField(msg, *l.Field("EventIndex"), rm.UVal(rm.U32, 77))
+				rm.EncodeField(msg, *l.Field("Timestamp"), rm.DateTimeVal(cv.y, cv.m, cv.d, cv.h, cv.mi, cv.s))
+				want[seqid] = fmt.Sprintf("%04d-%02d-%02d %02d:%02d:%02d", cv.y, cv.m, cv.d, cv.h, cv.mi, cv.s)
+				d.Push(msg)
+			}
+			for n := 0; n < len(want); n++ {
+				var st *types.Status
+				select {
+				case st = <-evc:
+				case <-time.After(2 * time.Second):
+				}
+				if st == nil {
+					c.Res.Inconcl("listener burst: an event was not delivered within 2 s")
+					break
+				}
+				caseNo++
+				c.Res.Eval(1)
+				c.Res.Count("listener-burst-events", 1)
+				w, ok := want[st.SequenceId]
+				if !ok {
+					continue
+				}
+				if got := adapter.PDateTime(st.SystemDateTime).String(); got != w {
+					bad++
+					viol("C13:status:listen-burst", fmt.Sprintf("Listen (burst of %d events): the event with sequence id %d carried system date+time %s and was delivered with %s", burst, st.SequenceId, w, got), map[string]any{"civil": w, "got": got})
+				} else if got := adapter.PDateTime(st.Event.Timestamp).String(); got != w {
+					bad++
+					viol("C13:status:listen-burst", fmt.Sprintf("Listen (burst of %d events): the event with sequence id %d carried the timestamp %s and was delivered with %s", burst, st.SequenceId, w, got), map[string]any{"civil": w, "got": got})
+				}
+			}
+		}
+	}
+
+	// ---- state left behind by the previous call: every ordered pair of days of a leap year and of a common year, the second day
+	// of each pair checked (the entry point varies with the pair)
+	for _, y := range []int{2024, 2023 + 400*r.Pick(15)} {
+		type day struct{ m, d int }
+		days := []day{}
+		for m := 1; m <= 12; m++ {
+			for dd := 1; dd <= rm.DaysIn(y, m); dd++ {
+				if z.dayHasInstant(y, m, dd) {
+					days = append(days, day{m, dd})
+				}
+			}
+		}
+		bad := 0
+		for i, a := range days {
+			if (i%c.NBatchOr1()) != c.Batch%c.NBatchOr1() && !c.Thorough() {
+				continue // quick: the pairs are partitioned over the zone batches by first day
+			}
+			for j, b := range days {
+				if bad > 3 {
+					break
+				}
+				var got types.Date
+				var err error
+				wantS := fmt.Sprintf("%04d-%02d-%02d", y, b.m, b.d)
+				switch (i + j) % 3 {
+				case 0:
+					_ = types.ToDate(y, time.Month(a.m), a.d)
+					got = types.ToDate(y, time.Month(b.m), b.d)
+				case 1:
+					types.ParseDate(fmt.Sprintf("%04d-%02d-%02d", y, a.m, a.d))
+					got, err = types.ParseDate(wantS)
+				default:
+					var x types.Date
+					x.UnmarshalUT0311L0x(bcdDate(y, a.m, a.d))
+					var v any
+					v, err = got.UnmarshalUT0311L0x(bcdDate(y, b.m, b.d))
+					if dp, ok := v.(*types.Date); ok && dp != nil {
+						got = *dp
+					}
+				}
+				c.Res.Eval(1)
+				if err != nil || got.String() != wantS {
+					bad++
+					viol("C13:date:after-another-date", fmt.Sprintf("date %s resolved right after %04d-%02d-%02d reports %s (err %v)", wantS, y, a.m, a.d, got.String(), err), map[string]any{"day": wantS, "previous": fmt.Sprintf("%04d-%02d-%02d", y, a.m, a.d), "entry": (i + j) % 3})
+				}
+			}
+		}
+		c.Res.Count("ordered-day-pairs-years", 1)
+	}
+
+	// ---- concurrent use: several goroutines resolve different dates and date-times at the same time
+	{
+		G := 8
+		per := c.N(1500, 15000) * (1 + runtime.GOMAXPROCS(0)) / 2 // the multi-processor batches do the bulk of it
+		pool := []civil{}
+		for _, i := range chosen {
+			for _, du := range []int64{-86400, 0, 86400} {
+				pool = append(pool, civilOf(z.periods[i].start+du, loc))
+			}
+			if len(pool) > 600 {
+				break
+			}
+		}
+		var wg sync.WaitGroup
+		var nbad atomic.Int64
+		for g := 0; g < G; g++ {
+			wg.Add(1)
+			go func(g int) {
+				defer wg.Done()
+				rr := gen.New(c.Seed, fmt.Sprintf("C13/concurrent/%s/%d", zone, g), c.Batch)
+				var sticky civil // a date this goroutine keeps coming back to (card lists repeat the same few dates)
+				stickyLeft := 0
+				for k := 0; k < per && nbad.Load() < 4; k++ {
+					var cv civil
+					if g%2 == 0 && stickyLeft > 0 {
+						stickyLeft--
+						cv = sticky
+					} else if len(pool) > 0 && rr.Chance(0.5) {
+						cv = pool[rr.Pick(len(pool))]
+					} else {
+						dv := rr.Date()
+						cv = civil{y: dv.Y, m: dv.Mo, d: dv.D}
+					}
+					if cv.y < 1 || cv.y > 9999 || (cv.y == 1 && cv.m == 1 && cv.d == 1) || !z.dayHasInstant(cv.y, cv.m, cv.d) {
+						continue
+					}
+					if g%2 == 0 && stickyLeft == 0 {
+						sticky, stickyLeft = cv, 50+rr.Pick(400)
+					}
+					wantS := fmt.Sprintf("%04d-%02d-%02d", cv.y, cv.m, cv.d)
+					var got types.Date
+					var err error
+					entry := ""
+					switch rr.Pick(4) {
+					case 0:
+						entry, got = "ToDate", types.ToDate(cv.y, time.Month(cv.m), cv.d)
+					case 1:
+						entry = "ParseDate"
+						got, err = types.ParseDate(wantS)
+					case 2:
+						entry = "Date.UnmarshalJSON"
+						err = json.Unmarshal([]byte(`"`+wantS+`"`), &got)
+					default:
+						entry = "wire"
+						var resp messages.GetCardByIndexResponse
+						msg := make([]byte, 64)
+						msg[0], msg[1], msg[8] = 0x17, 0x5c, 1
+						copy(msg[12:], bcdDate(cv.y, cv.m, cv.d))
+						copy(msg[16:], bcdDate(cv.y, cv.m, cv.d))
+						err = codec.Unmarshal(msg, &resp)
+						got = resp.From
+					}
+					c.Res.Eval(1)
+					if err != nil || got.String() != wantS {
+						nbad.Add(1)
+						c.Res.Violate("C13:date:concurrent", fmt.Sprintf("%s(%s) reports %s (err %v) while %d goroutines resolve dates concurrently (TZ=%s)", entry, wantS, got.String(), err, G, zone), map[string]any{"zone": zone, "day": wantS, "entry": entry}, -3)
+					}
+				}
+			}(g)
+		}
+		wg.Wait()
+		c.Res.Count("concurrent-date-resolutions", int64(G*per))
 	}
 
 	// stop the listener
